@@ -122,6 +122,8 @@ void SUKFCorrection::correctStep(const GaussianMixture& pred_state, GaussianMixt
 
         /* Evaluate the mean. */
         pred_mean.col(i).noalias() = prop_sp * ut_weight_.mean;
+        if (meas_description.circular_size() > 0)
+            pred_mean.col(i).bottomRows(meas_description.circular_size()) = directional_mean(prop_sp.bottomRows(meas_description.circular_size()), ut_weight_.mean);
     }
 
     /* Evaluate the innovation if possible. */
@@ -153,7 +155,9 @@ void SUKFCorrection::correctStep(const GaussianMixture& pred_state, GaussianMixt
         Ref<MatrixXd> Y = propagated_sigma_points_.middleCols(size_sigmas * i, size_sigmas);
 
         /* Shift w.r.t. the mean. */
-        Y.colwise() -= pred_mean.col(i);
+        Y.topRows(meas_description.linear_size()).colwise() -= pred_mean.col(i).topRows(meas_description.linear_size());
+        if (meas_description.circular_size() > 0)
+            Y.bottomRows(meas_description.circular_size()) = directional_sub(Y.bottomRows(meas_description.circular_size()), pred_mean.col(i).bottomRows(meas_description.circular_size()));
 
         /* Weight using square root of unscented transform weight. */
         Y *= sqrt_ut_weight;
